@@ -103,13 +103,13 @@ def apiSetcomment (c : Cfg) (path : Bytes) (comment : Option Bytes) : ApiOut :=
   | _, _ => ⟨c, -1, p.diags, []⟩
 
 /-- `cfg_addtsec` -/
-def apiAddtsec (orc : Oracle) (k : Nat) (c : Cfg) (path : Bytes) (title : Bytes) : ApiOut :=
-  -- cfg_gettsec(cfg, name, title)
-  let p1 := getoptPath c path
+def apiAddtsec (orc : Oracle) (k : Nat) (c : Cfg) (path : Bytes) (title : Option Bytes) : ApiOut :=
+  -- cfg_gettsec(cfg, name, title): NULL title = nothing looked up
+  let p1 : PathOut := match title with | some _ => getoptPath c path | none => ⟨none, 0, []⟩
   let exists_ : Bool :=
-    match p1.ref.bind c.getOpt with
-    | some o => o.flags.title && o.ty == .sec && (gettsecidx o title).isSome
-    | none => false
+    match title, p1.ref.bind c.getOpt with
+    | some t, some o => o.flags.title && o.ty == .sec && (gettsecidx o t).isSome
+    | _, _ => false
   if exists_ then ⟨c, -1, p1.diags, []⟩
   else
     let p2 := getoptPath c path
@@ -119,7 +119,13 @@ def apiAddtsec (orc : Oracle) (k : Nat) (c : Cfg) (path : Bytes) (title : Bytes)
       match c.getOpt r with
       | none => ⟨c, -1, p1.diags ++ p2.diags, []⟩
       | some o =>
-        let out := setopt orc k c.info o (some title)
+        -- only sections can be added; one that is found by its title needs one; and the title exists if
+        -- `cfg_setopt` would find it (the context's case rule), so that an add never replaces (fix F37)
+        if o.ty != .sec || (title.isNone && o.flags.title) then ⟨c, -1, p1.diags ++ p2.diags, []⟩
+        else if o.flags.title && (match title with | some t => (findTitle c.info.flags.nocase t o.vals 0).isSome | none => false) then
+          ⟨c, -1, p1.diags ++ p2.diags, []⟩
+        else
+        let out := setopt orc k c.info o title
         match out.res with
         | none => ⟨c.setOpt r out.opt, -1, p1.diags ++ p2.diags ++ out.diags, out.calls⟩
         | some i =>
